@@ -23,10 +23,26 @@ THEOREMS = [
     "SymmModel.C12.norm_sq_phaseSync",
     "SymmModel.C08.norm_sq_eq_dense",
     "SymmModel.C08.norm_sq_eq_dense_of_valid",
-    "SymmModel.C08.sum_locateAll_reindex"
+    "SymmModel.C08.sum_locateAll_reindex",
+    "SymmModel.C12.charpoly_blockDiagonal'",
+    "SymmModel.C12.charpoly_reindex",
+    "SymmModel.C12.eigenvalues_blockDiagonal'",
+    "SymmModel.C12.charpoly_of_blockDiag",
+    "SymmModel.C12.toDense_block_entries",
+    "SymmModel.C12.toDense_eq_blockDiagonal",
+    "SymmModel.C12.eigh_charpoly",
+    "SymmModel.C12.eigh_charpoly_fin",
+    "SymmModel.C12.eigh_eigenvalues",
+    "SymmModel.C12.sector_missing",
+    "SymmModel.C12.sector_stored",
+    "SymmModel.C12.gram_blockDiagonal",
+    "SymmModel.C12.gram_charpoly",
+    "SymmModel.C12.gram_block_stored",
+    "SymmModel.C12.gram_block_missing",
+    "SymmModel.C12.squared_singular_values"
 ]
-LEAN_FILES = ["SymmModel.Props.C12", "SymmModel.Proofs.LinalgLemmas", "SymmModel.Proofs.LinalgFactors", "SymmModel.Proofs.LinalgDense", "SymmModel.Proofs.LinalgSolve", "SymmModel.Props.C12All", "SymmModel.Props.C08b", "SymmModel.Proofs.DenseMore"]
-PLANNED = ["solve_dense", "cited, not proved: the spectrum of a direct sum is the union of the summands' spectra"]
+LEAN_FILES = ["SymmModel.Props.C12", "SymmModel.Proofs.LinalgLemmas", "SymmModel.Proofs.LinalgFactors", "SymmModel.Proofs.LinalgDense", "SymmModel.Proofs.LinalgSolve", "SymmModel.Props.C12All", "SymmModel.Props.C08b", "SymmModel.Proofs.DenseMore", "SymmModel.Props.C12b", "SymmModel.Proofs.Spectrum", "SymmModel.Proofs.SpectrumAxis", "SymmModel.Proofs.SpectrumDense", "SymmModel.Proofs.SpectrumMore", "SymmModel.Proofs.SpectrumBlock"]
+PLANNED = ["solve_dense (in progress)", "outside the theorems: that LAPACK returns the roots of these characteristic polynomials (numerical validation)"]
 RULE = ("random abelian matrices (all symmetries, dualness, charges, block shapes, sparse, real/complex) and "
         "fermionic ones for singular values and norm: singular values as a multiset vs numpy's SVD of an independent "
         "densification (tolerance 1e-9 relative; matrices with exactly known integer singular values included), "
